@@ -83,9 +83,36 @@ def replay_kindict(args):
     return False, "kinematics dict untouched"
 
 
+def from_dict_couplings(proj="electron", proc="NC"):
+    """the shared object as a run really builds it: CouplingConstants.from_dict on cards (floats)"""
+    from yadism.coefficient_functions.coupling_constants import CouplingConstants
+
+    theory = dict(CKM="0.97428 0.22530 0.003470 0.22520 0.97345 0.041000 0.00862 0.04030 0.999152", SIN2TW=0.23126, MZ=91.1876, MW=80.398)
+    obs = dict(ProjectileDIS=proj, prDIS=proc, PolarizationDIS=0.7, PropagatorCorrection=0.02, NCPositivityCharge=None)
+    return CouplingConstants.from_dict(theory, obs)
+
+
+def from_dict_history():
+    """repeated requests to one from_dict-built object vs a fresh object per request; returns the list of differences"""
+    bad = []
+    for proj in ("electron", "positron", "neutrino"):
+        shared = from_dict_couplings(proj)
+        for rep in range(3):
+            for q_ in (1, 2, 4):
+                for t_ in ("VV", "AA", "VA", "AV"):
+                    got = shared.get_weight(q_, 900.0, t_)
+                    fresh = from_dict_couplings(proj).get_weight(q_, 900.0, t_)
+                    if abs(float(got) - float(fresh)) > 1e-12 * max(1.0, abs(float(fresh))):
+                        bad.append((proj, rep, q_, t_, float(got), float(fresh)))
+    return bad
+
+
 def replay_weights_history(args):
     from yadism.coefficient_functions.coupling_constants import CouplingConstants
 
+    if args.get("from_dict"):
+        bad = from_dict_history()
+        return (True, f"CouplingConstants.from_dict object: answer depends on earlier requests (projectile, repetition, quark, type, shared, fresh): {bad[:3]}") if bad else (False, "history independent")
     P = cm.ew_params(values={})
     shared = cm.make_coupling(P, "CC", 12)
     bad = []
@@ -136,7 +163,7 @@ class Obs:
         return len(self.elements)
 
 
-def ordering_case(n, q2s, extra_obs=False):
+def ordering_case(n, q2s, extra_obs=False, dup=False):
     import io
 
     import rich.console
@@ -145,6 +172,9 @@ def ordering_case(n, q2s, extra_obs=False):
 
     r = object.__new__(Runner)
     elems = [Elem(i, q2s[i]) for i in range(n)]
+    if dup and n >= 2:
+        # a point listed twice in the card is ONE object at two positions (the cache hands out the same object)
+        elems[-1] = elems[0]
     r.observables = {"F2_total": Obs(elems)}
     if extra_obs:
         r.observables["FL_total"] = Obs([Elem(99, q2s[0])])  # created on demand by TMC/XS: not part of the plan
@@ -159,9 +189,13 @@ def ordering_case(n, q2s, extra_obs=False):
 
 
 def replay_ordering(args):
-    out, drops = ordering_case(len(args["q2s"]), args["q2s"], args.get("extra", False))
+    out, drops = ordering_case(len(args["q2s"]), args["q2s"], args.get("extra", False), args.get("dup", False))
     got = out["F2_total"]
-    if [g[1] for g in got] != list(range(len(args["q2s"]))) or (args.get("extra") and "FL_total" in out):
+    n = len(args["q2s"])
+    want = list(range(n))
+    if args.get("dup") and n >= 2:
+        want[-1] = 0
+    if any(g is None for g in got) or [g[1] for g in got] != want or (args.get("extra") and "FL_total" in out):
         return True, f"Q2 list {args['q2s']}: output order {got}"
     return False, "output[i] is the result of elements[i]"
 
@@ -300,11 +334,13 @@ def run(chk, only=None):
         chk.section("cache", cases=len(cases))
     # ---- (2) ordering ----
     if only in (None, "ordering"):
-        for n, extra in itertools.product((1, 2, 3, 4) if not q else (1, 2, 3), (False, True)):
+        for n, extra, dup in [(n_, e_, False) for n_, e_ in itertools.product((1, 2, 3, 4) if not q else (1, 2, 3), (False, True))] + [(2, False, True), (3, False, True)]:
             with Ctx(chk.seed) as ctx:
-                def body(n=n, extra=extra):
+                def body(n=n, extra=extra, dup=dup):
                     q2s = [ctx.var(f"Q2_{i}", 0, None, wlo=1, whi=5) for i in range(n)]
-                    return ordering_case(n, q2s, extra)
+                    if dup:
+                        q2s[-1] = q2s[0]
+                    return ordering_case(n, q2s, extra, dup)
 
                 ex = explore.Explorer(ctx, max_paths=2048, timeout_ms=3000)
                 paths = ex.run(body)
@@ -317,17 +353,20 @@ def run(chk, only=None):
                     chk.nontrivial.add(f"ordering:{n}:{extra}")
                     if p.kind == "exc":
                         chk.report(f"ordering:raise:{n}", f"get_result raises {type(p.value).__name__}: {str(p.value)[:100]}", "ordering",
-                                   dict(q2s=[float(p.assign.get(f"Q2_{k}", 1.0)) for k in range(n)], extra=extra))
+                                   dict(q2s=[float(p.assign.get(f"Q2_{0 if (dup and k == n - 1) else k}", 1.0)) for k in range(n)], extra=extra, dup=dup))
                         continue
                     out, drops = p.value
                     got = out.get("F2_total")
-                    ok = got is not None and [g[1] for g in got] == list(range(n)) and ("FL_total" not in out)
+                    want = list(range(n))
+                    if dup:
+                        want[-1] = 0
+                    ok = got is not None and all(g is not None for g in got) and [g[1] for g in got] == want and ("FL_total" not in out)
                     if ok:
                         chk.discharged += 1
                     else:
-                        chk.report(f"ordering:{n}", f"n={n}: output[name][i] is not the result of elements[i] on a feasible ordering", "ordering",
-                                   dict(q2s=[float(p.assign.get(f"Q2_{k}", 1.0)) for k in range(n)], extra=extra))
-                chk.section("ordering", **{f"n={n},extra={extra}": len(paths)})
+                        chk.report(f"ordering:{n}", f"n={n}{', one point listed twice' if dup else ''}: output[name][i] is not the result of elements[i] on a feasible ordering", "ordering",
+                                   dict(q2s=[float(p.assign.get(f"Q2_{0 if (dup and k == n - 1) else k}", 1.0)) for k in range(n)], extra=extra, dup=dup))
+                chk.section("ordering", **{f"n={n},extra={extra},dup={dup}": len(paths)})
     # ---- (3) memo transparency ----
     if only in (None, "memo"):
         from yadism.coefficient_functions import splitting_functions as split
@@ -436,6 +475,18 @@ def run(chk, only=None):
                 else:
                     chk.report("memo:couplings:history", "CouplingConstants.get_weight depends on the requests made before (shared by all observables of a run)",
                                "weights", dict(sequence=[list(x_) for x_ in seq]))
+        # the same for the object as a run really builds it (from_dict on float cards, polarised beams): deterministic concrete run
+        chk.obligations += 1
+        chk.evaluations += 1
+        try:
+            badfd = from_dict_history()
+        except Exception as e:  # noqa
+            badfd = [("raises", repr(e))]
+        if badfd:
+            chk.report("memo:couplings:from_dict", f"CouplingConstants built by from_dict: get_weight depends on the requests made before: {badfd[:2]}",
+                       "weights", dict(from_dict=True))
+        else:
+            chk.discharged += 1
         # answers of the shared scale-variation manager depend on nf only, not on what was asked before (one manager serves
         # every kinematic point of a run, i.e. every nf region of a ZM-VFNS run)
         for order in (2, 3):
